@@ -247,6 +247,33 @@ def _r03d(rep):
                      f"the block '{core.norm(core.src(part), 60)}' of the reciprocal operations holds the direct rotations untransposed: such an operation is not an isometry of the reciprocal lattice unless the basis is orthogonal, so the spectrum at R q differs from that at q (non-centrosymmetric crystals in hexagonal axes or primitive bases of centred lattices)", line=st.lineno)
 
 
+def _r03g(rep):
+    """Orientation of the reciprocal lattice handed to the compiled NAC kernels (frame typing)."""
+    from engine import frames
+    from engine.frames import C as CART, L as LAT
+
+    rep.rule("R03g", "the reciprocal lattice that the batch solver hands to the compiled kernels has the reciprocal basis vectors as COLUMNS (get_q_cart contracts its second axis with the reduced q): typed (Cartesian, component index of the primitive lattice), i.e. inv(cell) of the row-vector lattice; inv(cell.T) maps q and the q-direction to another Cartesian vector unless the lattice matrix is symmetric, so the non-analytical term of D(Rq) is not that of D(q)", 1)
+    fn = core.find_def(PYDM, "_extract_params")
+    dpar = fn.args.args[0].arg
+    ty = frames.Typer(fn, seeds={f"{dpar}.primitive.cell": (LAT("p", "-"), CART), "primitive.cell": (LAT("p", "-"), CART)}, params={}, call_sigs={}, where=f"{PYDM}::_extract_params")
+    problems = ty.run()
+    rets = [r.value for r in ast.walk(fn) if isinstance(r, ast.Return) and isinstance(r.value, ast.Tuple)]
+    if len(rets) != 1:
+        raise AnalysisError("R03g: _extract_params no longer returns one tuple")
+    cands = []
+    for el in rets[0].elts:
+        t = ty.expr(el)
+        if t is not None and len(t) == 2 and any(ax[0] == "L" for ax in t):
+            cands.append((el, t))
+    if len(cands) != 1:
+        raise AnalysisError(f"R03g: {len(cands)} lattice-typed entries in what _extract_params returns (the reciprocal lattice expected)")
+    el, t = cands[0]
+    want = (CART, LAT("p", "+"))
+    ok = not problems and frames.same_axis(t[0], want[0]) is not False and frames.same_axis(t[1], want[1]) is not False
+    rep.instance("R03g", PYDM, "_extract_params", f"{core.src(el)} : {frames.show(t)}", ok,
+                 f"the reciprocal lattice handed to the kernels is typed {frames.show(t)}, not {frames.show(want)}: the kernels read the reciprocal basis vectors from the columns", line=el.lineno)
+
+
 _run_main = run
 
 
@@ -258,11 +285,13 @@ def run(rep: core.Report):
     from rules import c13
 
     c13.tolerance_degree(rep, "R03f")
+    _r03g(rep)
 
 
 def selftest():
     V = []
     b = lambda name, file, old, new, rule, expect="", **kw: V.append(dict(name=name, kind="break", file=file, old=old, new=new, rule=rule, expect=expect, **kw))
+    b("reciprocal lattice handed to the kernels as rows", PYDM, "np.linalg.inv(dm.primitive.cell), dtype=\"double\", order=\"C\")", "np.linalg.inv(dm.primitive.cell.T), dtype=\"double\", order=\"C\")", "R03g", "_extract_params")
     b("make_Hermitian only on the serial arm", DYN, "                              i, j);\n            }\n        }\n    }\n\n    make_Hermitian(dynamical_matrix, num_patom * 3);", "                              i, j);\n            }\n        }\n        make_Hermitian(dynamical_matrix, num_patom * 3);\n    }\n", "R03a", "dym_get_dynamical_matrix_at_q")
     b("imaginary part added instead of subtracted", DYN, "            mat[adrs][1] -= mat[adrsT][1];", "            mat[adrs][1] += mat[adrsT][1];", "R03b", "mat[adrs][1]")
     b("transpose partner stored without conjugation", DYN, "            mat[adrsT][1] = -mat[adrs][1];", "            mat[adrsT][1] = mat[adrs][1];", "R03b", "mat[adrsT][1]")
